@@ -38,7 +38,7 @@ def instances(tier, seed):
     for a in 'sfi':
         for b in 'sfi':
             progs.append({'fam': 'K1', 'origins': [a, b]})
-    progs += [{'fam': 'A1', 'K': 1, 'C': 2}, {'fam': 'K2', 'T': 1}, {'fam': 'F1', 'variant': 'method'}, {'fam': 'F1', 'variant': 'module'}, {'fam': 'F1', 'variant': 'function'},
+    progs += [{'fam': 'A1', 'K': 1, 'C': 2}, {'fam': 'K2', 'T': 1}, {'fam': 'K2', 'T': 1, 'dim': -1}, {'fam': 'F1', 'variant': 'method'}, {'fam': 'F1', 'variant': 'module'}, {'fam': 'F1', 'variant': 'function'},
               {'fam': 'Q1'}, {'fam': 'W1', 'nd': 1}, {'fam': 'W1', 'nd': 2}, {'fam': 'X1', 'kind': 'conv', 'exclude': 'name'}, {'fam': 'X1', 'kind': 'linear', 'exclude': 'type'},
               {'fam': 'D2', 'C': 2, 'cin': 2}]
     if tier == 'thorough':
